@@ -14,6 +14,81 @@ def diff_str(d):
     return "+".join(v for k, v in DIFF_BITS.items() if d & k) or "none"
 
 
+def multi_statement(rep, rng, tier):
+    """Whether the names of a statement resolve depends on that statement and the schema alone: a query file with 2-4
+    statements over the same tables (aliased and not) must accept / reject each statement exactly as when it is the only
+    statement of the file, and infer the same columns and parameters."""
+    from qcommon import Schema, QGen
+    n = 200 if tier == "quick" else 4000
+    cases = []
+    for _ in range(n):
+        sch = Schema(rng)
+        stmts = []
+        for i in range(rng.randint(2, 4)):
+            g = QGen(rng, sch, named="pos", corrupt=rng.choice([0.0, 0.0, 0.1]))
+            sql, kind = g.statement()
+            if rng.random() < 0.35:
+                # the same table under an alias, then without: an alias must not outlive its statement
+                t = rng.choice(list(sch.tables))
+                c0 = sch.tables[t][0]
+                al = rng.choice(["u", "x", "a"])
+                sql, kind = rng.choice([("SELECT %s.%s FROM %s %s" % (al, c0, t, al), "select"), ("SELECT %s.* FROM %s AS %s" % (al, t, al), "select"),
+                                        ("SELECT %s.%s FROM %s" % (t.split(".")[-1], c0, t), "select"), ("SELECT %s.%s FROM %s" % (al, c0, t), "select"),
+                                        ("SELECT %s.* FROM %s" % (t.split(".")[-1], t), "select")])
+            cmd = ":many" if kind in ("select", "cte") else ":exec"
+            stmts.append("-- name: S%d %s\n%s;\n" % (i, cmd, sql))
+        if rng.random() < 0.2:
+            # a CTE named like a real table, then a statement WITHOUT a WITH clause that reads the table: the CTE must be
+            # gone (it has other columns than the table)
+            t = rng.choice([x for x in sch.tables if "." not in x and not x.startswith('"')] or ["t"])
+            if t in sch.tables:
+                c0 = sch.tables[t][0]
+                k0 = len(stmts)
+                stmts.append("-- name: S%d :many\nWITH %s AS (SELECT %s AS only_one FROM %s) SELECT * FROM %s;\n" % (k0, t, c0, t, t))
+                stmts.append("-- name: S%d :many\n%s;\n" % (k0 + 1, rng.choice(["SELECT * FROM %s" % t, "SELECT %s.* FROM %s" % (t, t),
+                                                                                "DELETE FROM %s WHERE %s IS NULL RETURNING *" % (t, c0)])))
+        cases.append((sch.sql, stmts))
+    jobs = []
+    for schema, stmts in cases:
+        jobs.append({"op": "compile", "engine": "postgresql", "schema": schema, "queries": "\n".join(stmts)})
+        jobs += [{"op": "compile", "engine": "postgresql", "schema": schema, "queries": st} for st in stmts]
+    res = run_harness(jobs)
+    pos = 0
+    for schema, stmts in cases:
+        together, alone = res[pos], res[pos + 1:pos + 1 + len(stmts)]
+        pos += 1 + len(stmts)
+        syntax = lambda r: any("syntax error" in (e.get("msg") or "") for e in (r.get("errs") or []))
+        if together.get("stage") == "schema" or any("panic" in r for r in [together] + alone) or syntax(together) or any(syntax(r) for r in alone):
+            # a file that does not parse is rejected as a whole (one diagnostic for the file), not statement by statement
+            rep.count("multi-statement:skipped")
+            continue
+        rep.case(("multi-statement", schema, tuple(stmts)), nontrivial=True)
+        replay = {"schema": schema, "queries": "\n".join(stmts)}
+        starts, line = [], 1
+        for st in stmts:
+            starts.append(line)
+            line += st.count("\n") + 1
+        span = lambda i: (starts[i], (starts[i + 1] - 1) if i + 1 < len(stmts) else 10 ** 9)
+        bad_alone = [i for i, r in enumerate(alone) if not r.get("ok")]
+        if together.get("ok"):
+            bad_together = []
+        else:
+            bad_together = sorted(set(i for e in together.get("errs", []) for i in range(len(stmts)) if span(i)[0] <= (e.get("line") or 0) <= span(i)[1]))
+        rep.count("multi-statement:%d-of-%d-rejected" % (len(bad_alone), len(stmts)))
+        if bad_alone != bad_together:
+            rep.violation("in a file of %d statements the rejected ones are %s; compiled one by one they are %s: whether a statement's names resolve depends on its neighbours"
+                          % (len(stmts), bad_together, bad_alone), dict(replay, together=together.get("errs"), alone=[r.get("errs") for r in alone]))
+        elif together.get("ok"):
+            view = lambda q: (q["name"], q["sql"], q["columns"], q["params"])
+            want = [view(q) for r in alone for q in r.get("queries", [])]
+            got = [view(q) for q in together.get("queries", [])]
+            if want != got:
+                k = next((i for i, (a, b) in enumerate(zip(want, got)) if a != b), None)
+                rep.violation("statement %s compiles to different SQL / columns / parameters next to the other statements of the file than alone" % (got[k][0] if k is not None else "?"),
+                              dict(replay, alone=want[k] if k is not None else None, together=got[k] if k is not None else None))
+
+
+
 def run_query_property(prop, judge, imports, known_map, rule, assumptions, tier, seed, n_quick=1200, n_thorough=30000,
                        gen=None, engine="postgresql", extra=None, corr_name="compile", what="the property fails", extra_args=None,
                        classify=None, with_generate=False, second=None, chunk_hook=None, positional=False, pre_finish=None):
@@ -110,7 +185,9 @@ def run_query_property(prop, judge, imports, known_map, rule, assumptions, tier,
     if engine == "postgresql" and prop in ("C02", "C05", "C06", "C07", "C10"):
         import c08
         c08.history_subcheck(rep, prop, seed, 2500 if tier == "quick" else 20000)
-    if prop in ("C03", "C07"):
+    if engine == "postgresql" and prop in ("C02", "C05", "C06", "C07", "C10"):
+        multi_statement(rep, rng, tier)
+    if prop in ("C03", "C07", "C06", "C02"):
         import mysqlq
         mysqlq.mysql_subcheck(rep, prop, seed, 600 if tier == "quick" else 12000)
     if pre_finish is not None:
